@@ -278,6 +278,24 @@ def qbitsPC (t : Tie) (c : BitsCfg) (as row : List Rat) : List Rat :=
 def lmax (l : List Rat) : Rat := l.foldl (fun m a => if m < a then a else m) (l.headD 0)
 def lmin (l : List Rat) : Rat := l.foldl (fun m a => if a < m then a else m) (l.headD 0)
 
+/-! ### state kept by a `quantized_linear` OBJECT -/
+
+/-- `__init__` stores `quantization_scale = default_quantization_scale`, computed from the `alpha`
+    it was given; `__call__` with a constant alpha uses the STORED scale, `min()/max()/range()` too.
+    `alpha` and `symmetric` are plain ("modifyable") attributes: `symmetric` is read by
+    `get_clip_bounds` at call time, but assigning `alpha` later does not refresh the stored scale. -/
+structure LinObj where
+  cfg : LinCfg                -- what the attributes say (the declared format)
+  scaleAlpha : Option Rat     -- the alpha the stored quantization_scale was computed from
+  deriving Repr
+
+def LinObj.construct (c : LinCfg) : LinObj := { cfg := c, scaleAlpha := c.alpha }
+def LinObj.setAlpha (o : LinObj) (a : Option Rat) : LinObj := { o with cfg := { o.cfg with alpha := a } }
+def LinObj.setSymmetric (o : LinObj) (s : Bool) : LinObj := { o with cfg := { o.cfg with symmetric := s } }
+/-- the configuration the object BEHAVES as -/
+def LinObj.effective (o : LinObj) : LinCfg := { o.cfg with alpha := o.scaleAlpha }
+def LinObj.call (t : Tie) (o : LinObj) (x : Rat) : Rat := qlinear t o.effective x
+
 /-! ### the module-level surrogate switch `set_internal_sigmoid` -/
 
 inductive SigMode | hard | smooth | real
